@@ -58,3 +58,6 @@ import Spydr.Edif.Props.C05Struct
 #print axioms Spydr.Edif.C05.Witness.not_always_top
 #print axioms Spydr.Edif.C05.Witness.stem_merges_two_names
 #print axioms Spydr.Edif.C05.Witness.scalar_after_bus_rejected
+#print axioms Spydr.Edif.C05.reader_names_everything
+#print axioms Spydr.Edif.C05.distinct_of_noClash
+#print axioms Spydr.Edif.C05.reader_siblings_distinct
